@@ -241,7 +241,16 @@ func genPolicy(r *c.Rng) *PolCase {
 		n = 2
 	}
 	for i := 0; i < n; i++ {
-		if r.Chance(1, 4) {
+		if r.Chance(1, 5) {
+			// another identifier type: the value is limited all the same
+			v := c.Pick(r, polNames)
+			if r.Chance(1, 3) {
+				v = c.Pick(r, polIPs)
+			} else if r.Chance(1, 4) {
+				v = c.Pick(r, []string{"serial-12345", "12345", "SN.zap.internal"})
+			}
+			k.Idents = append(k.Idents, Ident{"permanent-identifier", v})
+		} else if r.Chance(1, 4) {
 			k.Idents = append(k.Idents, Ident{"ip", c.Pick(r, polIPs)})
 		} else {
 			k.Idents = append(k.Idents, Ident{"dns", c.Pick(r, polNames)})
@@ -294,5 +303,20 @@ func policyCorners() []*PolCase {
 		{AllowIP: []string{"fd00::/8"}, Idents: []Ident{{"ip", "fd00::1"}}},
 		{DenyIP: []string{"fd00::/8"}, Idents: []Ident{{"ip", "fd00::1"}}},
 		{AllowIP: []string{"10.1.0.0/16"}, Idents: []Ident{{"ip", "::ffff:10.1.2.3"}}},
+		// identifiers of the other types are limited by the key's policy like any other value (the policy engine
+		// classifies the string: an IP address if it parses as one, else a DNS name)
+		{AllowDNS: []string{"zap.internal"}, Idents: []Ident{{"permanent-identifier", "zap.internal"}}},
+		{AllowDNS: []string{"zap.internal"}, Idents: []Ident{{"permanent-identifier", "other.test"}}},
+		{AllowDNS: []string{"*.zap.internal"}, Idents: []Ident{{"permanent-identifier", "a.zap.internal"}}},
+		{DenyDNS: []string{"zap.internal"}, Idents: []Ident{{"permanent-identifier", "zap.internal"}}},
+		{DenyDNS: []string{"zap.internal"}, Idents: []Ident{{"permanent-identifier", "other.test"}}},
+		{AllowIP: []string{"10.1.0.0/16"}, Idents: []Ident{{"permanent-identifier", "10.1.2.3"}}},
+		{AllowIP: []string{"10.1.0.0/16"}, Idents: []Ident{{"permanent-identifier", "10.2.0.1"}}},
+		{AllowIP: []string{"10.1.0.0/16"}, Idents: []Ident{{"permanent-identifier", "serial-12345"}}},
+		{DenyIP: []string{"10.1.0.0/16"}, Idents: []Ident{{"permanent-identifier", "10.1.2.3"}}},
+		{AllowDNS: []string{"zap.internal"}, Idents: []Ident{{"dns", "zap.internal"}, {"permanent-identifier", "other.test"}}},
+		{AllowDNS: []string{"zap.internal"}, Idents: []Ident{{"permanent-identifier", "zap.internal"}, {"dns", "zap.internal"}}},
+		{NoPolicy: true, Idents: []Ident{{"permanent-identifier", "other.test"}}},
+		{Idents: []Ident{{"permanent-identifier", "other.test"}}},
 	}
 }
